@@ -409,6 +409,18 @@ func c08Directed() []C08Case {
 	add(200, "application/json", `{"id":1,"ro":"r"}`, nil)
 	add(200, "application/json", `{"id":"x"}`, nil)
 	add(200, "application/json", `{"id":"x"}`, func(c *C08Case) { c.ExclBody = true })
+	// schemas without any `type`: a write-only member is still a constraint (the schema is not the empty schema)
+	woBare := &GSchema{Props: map[string]*GSchema{"password": {WriteOnly: true}, "n": {}}}
+	woWrap := &GSchema{HasTypes: true, Types: []string{"object"}, Props: map[string]*GSchema{"cred": woBare, "id": {HasTypes: true, Types: []string{"integer"}}}}
+	woAllOf := &GSchema{AllOf: []*GSchema{{HasTypes: true, Types: []string{"object"}}, {Props: map[string]*GSchema{"password": {WriteOnly: true}}}}}
+	for _, sc := range []*GSchema{woBare, woWrap, woAllOf} {
+		sc := sc
+		for _, body := range []string{`{"password":"x"}`, `{"n":1}`, `{"cred":{"password":"x"},"id":1}`, `{"cred":{"n":1}}`, `{}`} {
+			add(200, "application/json", body, func(c *C08Case) {
+				c.Responses = map[string]C08Resp{"200": {Content: map[string]*GSchema{"application/json": sc}}}
+			})
+		}
+	}
 	add(200, "application/json; charset=utf-8", `{"id":1}`, nil)
 	add(200, "text/plain", `{"id":1}`, nil)
 	add(200, "", `{"id":1}`, nil)
@@ -481,9 +493,64 @@ func init() {
 				meta.Histogram["body_not_readable"]++
 			}
 		}
+		if replay == "" {
+			c08HeaderSpellings(meta)
+		}
 		meta.NCases = len(cases)
 		meta.Files = writeCases(outDir, "From KV Require Import Model.Base Model.Json Model.Schema Model.Lookup Model.Response Exec.C08Exec.", "c08case", "judge", terms, meta.Shard)
 		writeMeta(outDir, meta)
 		fmt.Fprintf(os.Stderr, "C08: %d cases\n", len(cases))
+	}
+}
+
+// Response headers whose declared name is not in canonical MIME form, for every shape of header
+// schema (Go side): the declared header is the one looked up in the response, whatever its spelling
+// in the document - present and valid passes, absent but required fails, present and violating fails.
+func c08HeaderSpellings(meta *Meta) {
+	intS := openapi3.NewIntegerSchema().WithMax(6)
+	arrS := openapi3.NewArraySchema().WithItems(openapi3.NewIntegerSchema()).WithMaxItems(2)
+	objS := openapi3.NewObjectSchema().WithProperty("limit", openapi3.NewIntegerSchema().WithMax(6)).WithProperty("left", openapi3.NewIntegerSchema())
+	shapes := []struct {
+		name         string
+		schema       *openapi3.Schema
+		good, bad    string
+	}{{"integer", intS, "5", "7"}, {"array", arrS, "1,2", "1,2,3"}, {"object", objS, "limit,5,left,3", "limit,7,left,3"}}
+	for _, spelling := range []string{"X-Rate-Limits", "x-rate-limits", "X-rate-limits", "x-Rate-Limits"} {
+		for _, sh := range shapes {
+			for _, required := range []bool{true, false} {
+				for _, state := range []string{"good", "bad", "absent"} {
+					hd := &openapi3.Header{Parameter: openapi3.Parameter{Required: required, Schema: sh.schema.NewRef()}}
+					desc := "ok"
+					resp := &openapi3.Response{Description: &desc, Headers: openapi3.Headers{spelling: &openapi3.HeaderRef{Value: hd}}}
+					op := openapi3.NewOperation()
+					op.Responses = openapi3.NewResponses()
+					op.Responses.Set("200", &openapi3.ResponseRef{Value: resp})
+					item := &openapi3.PathItem{Get: op}
+					doc := &openapi3.T{OpenAPI: "3.0.0", Info: &openapi3.Info{Title: "t", Version: "1"}, Paths: openapi3.NewPaths()}
+					route := &routers.Route{Spec: doc, Path: "/h", PathItem: item, Method: "GET", Operation: op}
+					hdr := http.Header{}
+					switch state {
+					case "good":
+						hdr.Set(spelling, sh.good)
+					case "bad":
+						hdr.Set(spelling, sh.bad)
+					}
+					req := httptest.NewRequest("GET", "/h", nil)
+					in := &openapi3filter.ResponseValidationInput{RequestValidationInput: &openapi3filter.RequestValidationInput{Request: req, Route: route},
+						Status: 200, Header: hdr, Body: io.NopCloser(strings.NewReader("")), Options: &openapi3filter.Options{IncludeResponseStatus: true}}
+					var err error
+					pn := catchPanic(func() { err = openapi3filter.ValidateResponse(context.Background(), in) })
+					want := state == "good" || (state == "absent" && !required)
+					meta.Histogram["header spellings"]++
+					c := map[string]any{"header": spelling, "schema": sh.name, "required": required, "response_carries": state}
+					if pn != nil {
+						meta.GoViolation = append(meta.GoViolation, map[string]any{"signature": "header-spelling:panic", "cases": []any{c}, "go_observation": fmt.Sprint(pn), "judgement": "ValidateResponse panicked"})
+					} else if (err == nil) != want {
+						meta.GoViolation = append(meta.GoViolation, map[string]any{"signature": "header-spelling:verdict", "cases": []any{c}, "go_observation": fmt.Sprint(err),
+							"judgement": fmt.Sprintf("a %s %s header declared as %q (required=%v): accepted=%v", state, sh.name, spelling, required, err == nil)})
+					}
+				}
+			}
+		}
 	}
 }
